@@ -567,6 +567,11 @@ func (c *c19) query(name string, ld jet.Loader, owners []*lut, p string, spelled
 
 func RunC19(env *sim.Env) {
 	t := env.Tape
+	if t.Choose(12) == 11 {
+		// one run in twelve: overlapping lookups on one multi loader (conc_more.go)
+		runC19Concurrent(env)
+		return
+	}
 	c := &c19{env: env, t: t}
 	defer func() {
 		if c.cwd != "" {
